@@ -85,14 +85,45 @@ def compare(pid, case, ctx, cfgs, extended=False, expect=None, strata_fn=None):
     kw = {}
     variant = case.get("variant")
     if variant is None:
-        variant = "parallel" if int(gen.case_hash([case.get("atoms"), case.get("base"), case.get("queries")]), 16) % 10 == 0 else "plain"
+        # the same question asked under another, answer-neutral circumstance (chosen by case hash)
+        h = int(gen.case_hash([case.get("atoms"), case.get("base"), case.get("queries")]), 16) % 20
+        variant = {0: "parallel", 1: "parallel", 2: "debug-logging", 3: "recycled-base-object",
+                   4: "second-call"}.get(h, "plain")
+    import logging
+    liblog = logging.getLogger("inference")
+    if variant == "debug-logging":
+        # DEBUG enabled for the library's loggers (the handlers still filter the output)
+        ctx.stratum("variant:debug-logging")
+        liblog.setLevel(logging.DEBUG)
+    recycled = None
+    if variant == "recycled-base-object" and len(base) >= 1:
+        # the caller edits a knowledge base in place: a BeliefBase object that an earlier manager
+        # has already worked on (with other conditionals under the same keys) now holds this base
+        ctx.stratum("variant:recycled-base-object")
+        L = bridge.lib()
+        decoy = [(k, fm.V(allat[i % len(allat)]), fm.T if i % 2 else fm.V(allat[(i + 1) % len(allat)]))
+                 for i, (k, _, _) in enumerate(base)]
+        recycled = bridge.mk_bb(atoms, decoy)
+    if variant == "second-call":
+        # the batch is the SECOND inference() call of its manager (preprocessing is skipped then)
+        ctx.stratum("variant:second-call-on-manager")
     if variant == "parallel" and len({fm.cond_text(B, A) for _, B, A in queries}) == len(queries):
         # same question under another way of asking: parallel evaluation with budgets that cannot
         # expire (60 s per query, 600 s total) - the answers are the definition's all the same
         kw = {"multi_inference": True, "inference_timeout": 60, "total_timeout": 600}
         ctx.stratum("variant:parallel-with-generous-budgets")
     for cfg in cfgs:
-        res = bridge.answers(atoms, base, queries, cfg, weakly=extended, **kw)
+        try:
+            if recycled is not None:
+                res = answers_on_recycled(recycled, atoms, base, queries, cfg, extended)
+            elif variant == "second-call":
+                res = answers_second_call(atoms, base, queries, cfg, extended)
+            else:
+                res = bridge.answers(atoms, base, queries, cfg, weakly=extended, **kw)
+        finally:
+            liblog.setLevel(logging.NOTSET)
+            if variant == "debug-logging":
+                liblog.setLevel(logging.DEBUG)
         if res[0] == "exc":
             ctx.ev(1)
             out.append(obs(f"{cfg}|{res[1]}", {"message": res[2], "base": base_text(base), "call_options": kw},
@@ -125,10 +156,52 @@ def compare(pid, case, ctx, cfgs, extended=False, expect=None, strata_fn=None):
                                {"query": fm.cond_text(B, A), "expected": e, "got": bool(g),
                                 "base": base_text(base), "qindex": i, "call_options": kw},
                                case=dict(case, variant=variant)))
+    liblog.setLevel(logging.NOTSET)
     if len(ctx.samples) < ctx.max_samples and ctx.record and not case.get("exhaustive") and len(base) >= 2:
         ctx.sample({"base": base_text(base), "queries": [fm.cond_text(B, A) for _, B, A in queries],
                     "expected": {c: exp[c] for c in cfgs}})
     return out
+
+
+def answers_second_call(atoms, base, queries, cfg, weakly):
+    L = bridge.lib()
+    system, pm = bridge.cfg_of(cfg)
+    try:
+        man = L["InferenceManager"](bridge.mk_bb(atoms, base), system, pmaxsat_solver=pm, weakly=weakly)
+        k, B, A = queries[-1]
+        man.inference(bridge.mk_queries([(k, B, A)]))
+        rows = bridge.df_rows(man.inference(bridge.mk_queries(queries)))
+    except BaseException as e:  # noqa: BLE001
+        if isinstance(e, (KeyboardInterrupt, SystemExit, MemoryError)):
+            raise
+        return ("exc", bridge.exc_symptom(e), f"{type(e).__name__}: {e}"[:300])
+    return ("ok", [r["result"] for r in rows], rows)
+
+
+def answers_on_recycled(bb, atoms, base, queries, cfg, weakly):
+    """one manager works on the decoy content of `bb`; then the object is edited in place to
+    hold `base` and a NEW manager answers the queries"""
+    L = bridge.lib()
+    system, pm = bridge.cfg_of(cfg)
+    try:
+        try:
+            L["InferenceManager"](bb, system, pmaxsat_solver=pm, weakly=weakly).inference(
+                bridge.mk_queries([(1, fm.V(atoms[0]), fm.T)]))
+        except BaseException:  # noqa: BLE001 - the decoy may be inconsistent; only its side effects matter
+            pass
+        for k, B, A in base:
+            bb.conditionals[k] = bridge.mk_cond(B, A)
+        df = L["InferenceManager"](bb, system, pmaxsat_solver=pm, weakly=weakly).inference(bridge.mk_queries(queries))
+        rows = bridge.df_rows(df)
+        # restore the decoy content for the next configuration
+    except BaseException as e:  # noqa: BLE001
+        if isinstance(e, (KeyboardInterrupt, SystemExit, MemoryError)):
+            raise
+        return ("exc", bridge.exc_symptom(e), f"{type(e).__name__}: {e}"[:300])
+    finally:
+        for i, k in enumerate(list(bb.conditionals)):
+            bb.conditionals[k] = bridge.mk_cond(fm.V(atoms[i % len(atoms)]), fm.T)
+    return ("ok", [r["result"] for r in rows], rows)
 
 
 def base_text(base):
